@@ -201,6 +201,18 @@ def few_orders(pl):
     return orders(pl, full_upto=1)
 
 
+def many_prefix_root(n=12):
+    """One webentity owning n sibling prefixes (more than ten: two-digit prefix indexes in
+    pagination tokens), pages and links under the last ones."""
+    prefs = tuple(Bb + b"p:w%02d|" % i for i in range(n))
+    ops = [create(*prefs)]
+    for i in (0, n - 3, n - 2, n - 1):
+        ops.append(page(prefs[i] + b"p:a|", i % 2 == 0))
+        ops.append(page(prefs[i] + b"p:b|"))
+        ops.append(links((prefs[i] + b"p:a|", prefs[i] + b"p:b|"), (prefs[i] + b"p:b|", Bb + b"p:out|")))
+    return tuple(ops)
+
+
 SH = b"s:http|"  # a one-stem prefix (scheme-wide catch-all webentity)
 LONGP = Ab + L.long_stem(149)  # a page with a 3-block stem below Ab
 
